@@ -64,7 +64,44 @@ type DurRec struct {
 	Note  string
 }
 
+// Small is a small dials-tagged struct used as an element / pointee.
+type Small struct {
+	Host string         `dials:"host"`
+	Port int            `dials:"port"`
+	Wait *time.Duration `dials:"wait"`
+}
+
+// EmbSlices is an embeddable struct whose members are collections of structs
+// and a pointer to a struct: under AnonymousFlatten its fields are hoisted into
+// the parent, one source field mapping to several mangled fields.
+type EmbSlices struct {
+	EsList []Small
+	EsPair [2]Small
+	EsPtr  *Small
+	EsMap  map[string]Small
+	EsName shape.Name
+}
+
+// EmbSlicesTagged is the dials-tagged variant with slices of struct pointers.
+type EmbSlicesTagged struct {
+	EtList  []Small           `dials:"et_list"`
+	EtPtrs  []*Small          `dials:"et_ptrs"`
+	EtByKey map[string]*Small `dials:"et_by_key"`
+	EtLevel shape.Level       `dials:"et_level"`
+}
+
+// HidRec is an element struct with an unexported field between exported ones.
+type HidRec struct {
+	A      int
+	hidden int
+	W      time.Duration
+}
+
 func init() {
+	shape.RegisterBase("Small", reflect.TypeOf(Small{}))
+	shape.RegisterBase("EmbSlices", reflect.TypeOf(EmbSlices{}))
+	shape.RegisterBase("EmbSlicesTagged", reflect.TypeOf(EmbSlicesTagged{}))
+	shape.RegisterBase("HidRec", reflect.TypeOf(HidRec{}))
 	shape.RegisterBase("DurRec", reflect.TypeOf(DurRec{}))
 	shape.RegisterBase("Phase", reflect.TypeOf(Phase(0)))
 	shape.RegisterBase("Tiny", reflect.TypeOf(Tiny(0)))
@@ -219,6 +256,15 @@ type cfgPtrElems struct {
 	Waits      []time.Duration
 }
 
+// cfgEmbSlices embeds (by value and by pointer) structs whose members are
+// collections of structs; most documents leave those collections absent.
+type cfgEmbSlices struct {
+	EmbSlices
+	*EmbSlicesTagged
+	Other  string
+	Direct []Small
+}
+
 type fixedType struct {
 	name string
 	t    reflect.Type
@@ -235,7 +281,8 @@ var decoderTypes = []fixedType{
 	mkFixed("cfgFlat", cfgFlat{}),
 	mkFixed("cfgNested", cfgNested{}),
 	mkFixed("cfgNamed", cfgNamed{}),
-	mkFixed("cfgPtrElems", cfgPtrElems{}), // appended: selectors of older corpus cases keep their meaning modulo the old length only for sel < 4
+	mkFixed("cfgPtrElems", cfgPtrElems{}),   // appended: selectors of older corpus cases keep their meaning modulo the old length only for sel < 4
+	mkFixed("cfgEmbSlices", cfgEmbSlices{}), // index 5; the list is append-only (corpus cases store indices)
 }
 
 // cfgEnv is the fixed type of the environment target: every predeclared type
